@@ -277,7 +277,20 @@ def _run(task, I, res, seed, tier):
                 if w.get("shared") and (w["target"], w.get("attr")) in want and isinstance(w.get("value"), (int, SInt)):
                     I.guarantee.setdefault((w["target"], w["attr"]), []).append((w["pc"], lift_int(w["value"])))
         I.interfere = want
-    code_paths = list(I.explore(lambda: task.code(I, inp), max_paths=task.max_paths))
+    # exploration may use 60 % of the task budget; if it is cut off, the paths found so far are still put to the
+    # obligations: a refutation with a natively confirmed input is a violation whatever the rest of the tree does,
+    # while nothing is claimed proved (the task ends "incomplete" = undecided)
+    code_paths = []
+    incomplete = None
+    I.deadline = t_start + 0.6 * TASK_BUDGET_S
+    try:
+        for p in I.explore(lambda: task.code(I, inp), max_paths=task.max_paths):
+            code_paths.append(p)
+    except Unsupported as u:
+        if "exceeded the task time budget" not in str(u) or not code_paths:
+            raise
+        incomplete = f"{u} after {len(code_paths)} paths"
+    I.deadline = t_start + TASK_BUDGET_S
     res["paths"] = len(code_paths)
     obls = res["obligations"]
     # shared writes (C14/C15 frames)
@@ -368,7 +381,7 @@ def _run(task, I, res, seed, tier):
         return False
 
     # 1. engine sanity: the code paths cover the domain
-    if code_paths and not any(p.get("history") for p in code_paths) and not getattr(task, "skip_cover", False):
+    if code_paths and not incomplete and not any(p.get("history") for p in code_paths) and not getattr(task, "skip_cover", False):
         solve_clause(f"{task.name}: paths cover the input domain", [],
                      z3.Or(*[z3.And(*p["pc"]) if p["pc"] else z3.BoolVal(True) for p in code_paths]), kind="cover")
     # 2. safety obligations collected from contracts along the paths, grouped by name
@@ -430,6 +443,11 @@ def _run(task, I, res, seed, tier):
             solve_clause(f"{task.name}: path {i} ({_kind(o)}) agrees with the spec", p["pc"], goal)
     for nm, hyps, goal in task.extra_obligations(I, inp, code_paths):
         solve_clause(f"{task.name}: {nm}", hyps, goal)
+    if incomplete:
+        for o in obls:
+            if o["status"] == "discharged":
+                o["status"], o["backend"] = "undecided", o["backend"] + " (path discharged, exploration incomplete)"
+        raise Unsupported(incomplete + "; the obligations of the explored paths were tried for refutations only")
     _crosscheck(task, res, seed, tier)
 
 
